@@ -3,37 +3,25 @@
 package c15
 
 import (
-	"bytes"
 	"context"
 	"crypto"
 	"crypto/x509"
-	"encoding/hex"
 	"errors"
 	"flag"
 	"fmt"
 	"io"
 	"os"
-	"sort"
 	"strconv"
 	"strings"
 	"sync"
 	"syscall"
 	"testing"
-	"time"
 
-	"github.com/google/gce-tcb-verifier/cmd/output"
 	"github.com/google/gce-tcb-verifier/endorse"
-	"github.com/google/gce-tcb-verifier/keys"
 	epb "github.com/google/gce-tcb-verifier/proto/endorsement"
-	"github.com/google/gce-tcb-verifier/sev"
 	styp "github.com/google/gce-tcb-verifier/sign/types"
-	"github.com/google/gce-tcb-verifier/tdx"
-	sgpb "github.com/google/go-sev-guest/proto/sevsnp"
-	"google.golang.org/protobuf/proto"
-	"pgregory.net/rapid"
 
 	"verif/internal/ev"
-	"verif/internal/fwgen"
 )
 
 func TestMain(m *testing.M) { ev.Main(m) }
@@ -99,11 +87,33 @@ func (r *recCA) PrepareResources(context.Context) error {
 type recSigner struct {
 	c       *calls
 	digests [][]byte
+	// probe: at each signature, recompute the golden measurement of the request the run is working
+	// on (endorse.GoldenMeasurement over the context the signer was handed). The signer only ever
+	// sees a digest, and a dry run writes its document nowhere, so this is the one place where what a
+	// dry run is about to sign can be looked at structurally rather than as opaque bytes.
+	probe    bool
+	atSign   []*epb.VMGoldenMeasurement
+	probeErr error
 }
 
-func (s *recSigner) Sign(_ context.Context, k string, d styp.Digest, _ crypto.SignerOpts) ([]byte, error) {
+func (s *recSigner) Sign(ctx context.Context, k string, d styp.Digest, _ crypto.SignerOpts) ([]byte, error) {
 	s.c.add("signer.Sign")
 	s.digests = append(s.digests, append([]byte(nil), d.SHA256...))
+	if s.probe {
+		func() {
+			defer func() {
+				if r := recover(); r != nil {
+					s.probeErr = fmt.Errorf("panic: %v", r)
+				}
+			}()
+			g, err := endorse.GoldenMeasurement(ctx)
+			if err != nil {
+				s.probeErr = err
+				return
+			}
+			s.atSign = append(s.atSign, g)
+		}()
+	}
 	return []byte("signature by " + k), nil
 }
 func (s *recSigner) PublicKey(context.Context, string) ([]byte, error) {
@@ -137,7 +147,17 @@ func (m *recManager) CertificateTemplate(context.Context, *x509.Certificate, any
 
 type recVCS struct {
 	c     *calls
+	root  string
 	files map[string][]byte
+}
+
+// rel renders a released path for the call log without the per-case scratch prefix, so that logs
+// (and the evidence samples made of them) do not depend on temporary directory names.
+func (v *recVCS) rel(p string) string {
+	if i := strings.Index(v.root, "/root/vcs"); i >= 0 && strings.HasPrefix(p, v.root[:i]) {
+		return "$D" + p[i:]
+	}
+	return p
 }
 
 func (v *recVCS) GetChangeOps(context.Context) (endorse.ChangeOps, error) {
@@ -148,7 +168,11 @@ func (v *recVCS) RetriableError(error) bool { return false }
 func (v *recVCS) Result(commit any, p string) {
 	v.c.add(fmt.Sprintf("vcs.Result(commit=%v)", commit != nil))
 }
-func (v *recVCS) ReleasePath(_ context.Context, p string) string { return "/root/" + p }
+
+// ReleasePath places the version-control root inside the per-case scratch directory, so that code
+// which bypasses ChangeOps and writes to the released path directly lands where the file-system
+// snapshot sees it.
+func (v *recVCS) ReleasePath(_ context.Context, p string) string { return v.root + "/" + p }
 
 type recOps struct {
 	v      *recVCS
@@ -159,13 +183,13 @@ var errNotFound = errors.New("not found")
 
 func (o *recOps) WriteOrCreateFiles(_ context.Context, files ...*endorse.File) error {
 	for _, f := range files {
-		o.v.c.add("ops.Write:" + f.Path)
+		o.v.c.add("ops.Write:" + o.v.rel(f.Path))
 		o.staged[f.Path] = f.Contents
 	}
 	return nil
 }
 func (o *recOps) ReadFile(_ context.Context, p string) ([]byte, error) {
-	o.v.c.add("ops.Read:" + p)
+	o.v.c.add("ops.Read:" + o.v.rel(p))
 	if b, ok := o.staged[p]; ok {
 		return b, nil
 	}
@@ -175,7 +199,7 @@ func (o *recOps) ReadFile(_ context.Context, p string) ([]byte, error) {
 	return nil, errNotFound
 }
 func (o *recOps) SetBinaryWritable(_ context.Context, p string) error {
-	o.v.c.add("ops.Chmod:" + p)
+	o.v.c.add("ops.Chmod:" + o.v.rel(p))
 	return nil
 }
 func (o *recOps) IsNotFound(err error) bool { return errors.Is(err, errNotFound) }
@@ -221,279 +245,4 @@ func captureStdout(f func()) string {
 	out := <-done
 	r.Close()
 	return out
-}
-
-// ---------------------------------------------------------------------------------------------
-
-type scenario struct {
-	Image        []byte
-	Sev          bool
-	Tdx          bool
-	Vmsas        uint32
-	Genoa        bool
-	Shapes       []string
-	Early        bool
-	SnapshotDir  string
-	Candidate    string
-	Overwrite    bool
-	PreExisting  bool
-	Svsm         bool
-	DryRun, Only bool
-}
-
-var shapePool = []string{"c3-standard-4", "c3-standard-8", "c3-standard-88"}
-
-func genScenario(t *rapid.T) scenario {
-	l := fwgen.GenValid(t, fwgen.Options{MinPages: 1, MaxPages: 4, WantSev: true, WantTdx: true, MaxSevSections: 4, MaxTempMem: 2})
-	s := scenario{Image: l.Spec.Build()}
-	switch rapid.IntRange(0, 2).Draw(t, "tech") {
-	case 0:
-		s.Sev = true
-	case 1:
-		s.Tdx = true
-	default:
-		s.Sev, s.Tdx = true, true
-	}
-	s.Vmsas = rapid.SampledFrom([]uint32{0, 1, 2, 8}).Draw(t, "vmsas")
-	s.Genoa = rapid.Bool().Draw(t, "genoa")
-	s.Shapes = rapid.SliceOfNDistinct(rapid.SampledFrom(shapePool), 0, 2, rapid.ID[string]).Draw(t, "shapes")
-	s.Early = rapid.Bool().Draw(t, "early")
-	s.SnapshotDir = rapid.SampledFrom([]string{"", "", "snap"}).Draw(t, "snapshot")
-	s.Candidate = rapid.SampledFrom([]string{"", "rc1"}).Draw(t, "candidate")
-	s.Overwrite = rapid.Bool().Draw(t, "overwrite")
-	s.PreExisting = rapid.IntRange(0, 3).Draw(t, "preExisting") == 0
-	s.Svsm = rapid.IntRange(0, 3).Draw(t, "svsm") == 0
-	return s
-}
-
-type result struct {
-	err    error
-	pan    any
-	calls  *calls
-	signer *recSigner
-	vcs    *recVCS
-	stdout string
-}
-
-var stamp = time.Date(2025, time.March, 3, 4, 5, 6, 7, time.UTC)
-
-func run(s scenario, dry, only bool) result {
-	c := &calls{}
-	vcs := &recVCS{c: c, files: map[string][]byte{}}
-	if s.PreExisting {
-		name := "endorsement"
-		if s.Candidate != "" {
-			name = s.Candidate
-		}
-		vcs.files["/root/out/"+name+".binarypb"] = []byte("old endorsement")
-		vcs.files["/root/out/manifest.textproto"] = []byte("")
-	}
-	signer := &recSigner{c: c}
-	ec := &endorse.Context{
-		Image: s.Image, ClSpec: 123, Timestamp: stamp, VCS: vcs, OutDir: "out", DryRun: dry, MeasurementOnly: only,
-		SnapshotDir: s.SnapshotDir, ImageName: "ovmf.fd", CandidateName: s.Candidate, CommitRetries: 1,
-	}
-	if s.Sev {
-		p := sgpb.SevProduct_SEV_PRODUCT_MILAN
-		if s.Genoa {
-			p = sgpb.SevProduct_SEV_PRODUCT_GENOA
-		}
-		ec.SevSnp = &sev.SnpEndorsementRequest{Svn: 3, LaunchVmsas: s.Vmsas, Product: p, ImageID: "11111111-2222-3333-4444-555555555555"}
-		if s.Svsm {
-			ec.SvsmSnpMeasurement = bytes.Repeat([]byte{0x77}, 48)
-		}
-	}
-	if s.Tdx {
-		ec.Tdx = &tdx.EndorsementRequest{Svn: 3, MachineShapes: s.Shapes, IncludeEarlyAccept: s.Early}
-	}
-	ctx := keys.NewContext(context.Background(), &keys.Context{CA: &recCA{c}, Signer: signer, Manager: &recManager{c}, Random: bytes.NewReader(make([]byte, 4096))})
-	ctx = endorse.NewContext(ctx, ec)
-	ctx = output.NewContext(ctx, &output.Options{Overwrite: s.Overwrite, Quiet: true, Out: io.Discard, Err: io.Discard})
-	res := result{calls: c, signer: signer, vcs: vcs}
-	res.stdout = captureStdout(func() {
-		defer func() {
-			if r := recover(); r != nil {
-				res.pan = r
-			}
-		}()
-		res.err = endorse.VirtualFirmware(ctx)
-	})
-	return res
-}
-
-// signedGolden extracts the golden measurement the real run committed.
-func signedGolden(r result, s scenario) (*epb.VMGoldenMeasurement, error) {
-	for p, b := range r.vcs.files {
-		if strings.HasSuffix(p, ".binarypb") && !bytes.Equal(b, []byte("old endorsement")) || strings.HasSuffix(p, ".signed") {
-			e := &epb.VMLaunchEndorsement{}
-			if err := proto.Unmarshal(b, e); err != nil {
-				return nil, err
-			}
-			g := &epb.VMGoldenMeasurement{}
-			if err := proto.Unmarshal(e.SerializedUefiGolden, g); err != nil {
-				return nil, err
-			}
-			return g, nil
-		}
-	}
-	return nil, fmt.Errorf("the real run committed no endorsement (files: %v)", keysOf(r.vcs.files))
-}
-
-func keysOf(m map[string][]byte) []string {
-	var ks []string
-	for k := range m {
-		ks = append(ks, k)
-	}
-	sort.Strings(ks)
-	return ks
-}
-
-// expectedReport renders what measurement-only must print for the golden measurement, as a set of lines.
-func expectedReport(g *epb.VMGoldenMeasurement, s scenario) []string {
-	var lines []string
-	if g.SevSnp != nil {
-		if s.Vmsas != 0 {
-			lines = append(lines, hex.EncodeToString(g.SevSnp.Measurements[s.Vmsas]))
-		} else {
-			for n, m := range g.SevSnp.Measurements {
-				lines = append(lines, fmt.Sprintf("%d %s", n, hex.EncodeToString(m)))
-			}
-		}
-	}
-	if g.Tdx != nil {
-		for _, m := range g.Tdx.Measurements {
-			lines = append(lines, fmt.Sprintf("RAM:%d UnacceptedMemory:%t MRTD:%s", m.RamGib, !m.EarlyAccept, hex.EncodeToString(m.Mrtd)))
-		}
-	}
-	sort.Strings(lines)
-	return lines
-}
-
-func reportLines(out string) []string {
-	var lines []string
-	for _, l := range strings.Split(out, "\n") {
-		l = strings.TrimSpace(l)
-		if l != "" {
-			lines = append(lines, l)
-		}
-	}
-	sort.Strings(lines)
-	return lines
-}
-
-const ruleText = "generated firmware (1-4 pages, SEV+TDX metadata) x technology {SNP, TDX, both} x VMSA count {0=all,1,2,8} x product x machine shapes (0-2 of three) x early accept x SVSM x snapshot dir x candidate name x overwrite x pre-existing endorsement file x {dry-run, measurement-only, both}, each compared with the real run (neither flag) over the same request, with recording doubles for CertificateAuthority, Signer, KeyManager, VersionControl and ChangeOps and fd 1 captured; oracle: dry-run returns nil (unless the real run is refused for an existing file), with zero GetChangeOps / writes / mode changes / commits; measurement-only in addition makes zero calls on CA, signer and key manager and prints exactly the (count -> digest) / (RAM, unaccepted, MRTD) lines of the golden measurement the real run signed; dry-run hands the signer the same SHA-256 digest as the real run; non-trivial = dry-run or measurement-only set (always); distinct = (flags, request shape)"
-
-func TestNoSideEffects(t *testing.T) {
-	const name = "flags-vs-real-run"
-	ev.Rule(name, ruleText)
-	checks(ev.Scale(1200, 8000))
-	rapid.Check(t, func(t *rapid.T) {
-		s := genScenario(t)
-		mode := rapid.SampledFrom([]string{"dry-run", "measurement-only", "both"}).Draw(t, "mode")
-		dry, only := mode != "measurement-only", mode != "dry-run"
-		real := run(s, false, false)
-		if real.pan != nil {
-			t.Fatalf("harness: the real run panicked: %v", real.pan)
-		}
-		refusedReal := real.err != nil && strings.Contains(real.err.Error(), "cannot overwrite")
-		if real.err != nil && !refusedReal {
-			t.Fatalf("harness: the real run failed: %v", real.err)
-		}
-		got := run(s, dry, only)
-		desc := fmt.Sprintf("%s sev=%v tdx=%v vmsas=%d shapes=%v early=%v snapshot=%q candidate=%q overwrite=%v preexisting=%v", mode, s.Sev, s.Tdx, s.Vmsas, s.Shapes, s.Early, s.SnapshotDir, s.Candidate, s.Overwrite, s.PreExisting)
-		if got.pan != nil {
-			key := "C15/dry-run-panic"
-			if only {
-				key = "C15/measurement-only-panic"
-			}
-			ev.Violation(t, key, "%s: VirtualFirmware panicked: %v", desc, got.pan)
-			return
-		}
-		if got.err != nil && !(dry && !only && refusedReal) {
-			ev.Violation(t, "C15/flagged-run-failed", "%s: VirtualFirmware returned %v (real run: %v)", desc, got.err, real.err)
-			return
-		}
-		// no workspace, no write, no mode change, no commit
-		for _, p := range []string{"vcs.GetChangeOps", "ops.Write", "ops.Chmod", "ops.TryCommit"} {
-			if n := got.calls.count(p); n != 0 {
-				ev.Violation(t, "C15/side-effect/"+p, "%s: %d calls to %s: %v", desc, n, p, got.calls.log)
-				return
-			}
-		}
-		if len(got.vcs.files) != len(run(s, false, true).vcs.files) {
-			ev.Violation(t, "C15/side-effect/files", "%s: file set changed", desc)
-			return
-		}
-		if only {
-			for _, p := range []string{"ca.", "signer.", "manager."} {
-				if n := got.calls.count(p); n != 0 {
-					ev.Violation(t, "C15/measurement-only-touches-keys", "%s: %d calls to %s*: %v", desc, n, p, got.calls.log)
-					return
-				}
-			}
-		}
-		// same measurements as the real run signs
-		if !refusedReal {
-			g, err := signedGolden(real, s)
-			if err != nil {
-				t.Fatalf("harness: %v", err)
-			}
-			if only {
-				want, have := expectedReport(g, s), reportLines(got.stdout)
-				if strings.Join(want, "\n") != strings.Join(have, "\n") {
-					ev.Violation(t, "C15/measurement-only-report-differs", "%s: printed %v, the real run signed %v", desc, have, want)
-					return
-				}
-			} else if s.Sev && s.Vmsas == 0 {
-				// proto.Marshal does not order map entries deterministically, so with the 15-entry
-				// measurement map two runs over the same request legitimately sign different bytes;
-				// the digest comparison is only meaningful for single-entry maps.
-				if len(got.signer.digests) != 1 {
-					ev.Violation(t, "C15/dry-run-signs-different-document", "%s: dry-run made %d signatures", desc, len(got.signer.digests))
-					return
-				}
-			} else {
-				if len(got.signer.digests) != 1 || len(real.signer.digests) != 1 || !bytes.Equal(got.signer.digests[0], real.signer.digests[0]) {
-					ev.Violation(t, "C15/dry-run-signs-different-document", "%s: dry-run signer digests %x, real run %x", desc, got.signer.digests, real.signer.digests)
-					return
-				}
-			}
-		}
-		ev.Case(name, true, desc, mode+"/"+map[bool]string{true: "snapshot", false: "manifest"}[s.SnapshotDir != ""], func() any {
-			return map[string]any{"mode": mode, "sev": s.Sev, "tdx": s.Tdx, "vmsas": s.Vmsas, "shapes": s.Shapes, "snapshot": s.SnapshotDir, "candidate": s.Candidate, "overwrite": s.Overwrite, "calls": got.calls.log}
-		})
-	})
-}
-
-// Plain regression replays of the confirmed finding.
-func TestRegressionDryRun(t *testing.T) {
-	const name = "regression"
-	ev.Rule(name, "hand-written replays: dry-run with and without a snapshot directory over the repository's example-like firmware must return nil without creating a workspace; all non-trivial")
-	img := smallImage()
-	for _, snap := range []string{"", "snap"} {
-		s := scenario{Image: img, Sev: true, Tdx: true, Vmsas: 2, SnapshotDir: snap}
-		got := run(s, true, false)
-		if got.pan != nil {
-			ev.Violation(t, "C15/dry-run-panic", "dry-run (snapshot=%q) panicked: %v", snap, got.pan)
-			continue
-		}
-		if got.err != nil {
-			ev.Violation(t, "C15/flagged-run-failed", "dry-run (snapshot=%q) returned %v", snap, got.err)
-			continue
-		}
-		if n := got.calls.count("vcs.GetChangeOps") + got.calls.count("ops."); n != 0 {
-			ev.Violation(t, "C15/side-effect/vcs.GetChangeOps", "dry-run (snapshot=%q) touched the workspace: %v", snap, got.calls.log)
-			continue
-		}
-		ev.Case(name, true, "dry-run/"+snap, "dry-run", func() any { return map[string]any{"snapshot": snap, "calls": got.calls.log} })
-	}
-}
-
-func smallImage() []byte {
-	spec := &fwgen.Spec{Size: 0x2000, BodySeed: 5}
-	sevS := []fwgen.SevSection{{Address: 0x801000, Length: 0x1000, Kind: 1}, {Address: 0x803000, Length: 0x1000, Kind: 3}, {Address: 0x804000, Length: 0x1000, Kind: 2}}
-	tdxS := []fwgen.TdxSection{{DataOffset: 0, DataSize: 0x2000, MemoryBase: 0xffffe000, MemorySize: 0x2000, Type: 0, Attributes: 1}, {MemoryBase: 0x809000, MemorySize: 0x2000, Type: 2}}
-	spec.Blobs = []fwgen.Blob{{Offset: 0x100, Data: fwgen.SevMetadataBytes(sevS, nil, nil, nil)}, {Offset: 0x400, Data: fwgen.TdxMetadataBytes(tdxS, nil, nil, nil, nil)}}
-	spec.Entries = []fwgen.Entry{{GUID: fwgen.SevEsResetGUID, Data: fwgen.U32(0xff0000ff)}, {GUID: fwgen.SevMetaOffsetGUID, Data: fwgen.U32(0x2000 - 0x100)}, {GUID: fwgen.TdxMetaOffsetGUID, Data: fwgen.U32(0x2000 - 0x410)}}
-	return spec.Build()
 }
